@@ -2,7 +2,7 @@ SPECIFICATION Spec
 CONSTANT MaxBody = 3
 CONSTANT MaxIter = 4
 CONSTANT Ops = {"a", "b", "c"}
-CONSTANT Cells = {0}
+CONSTANT Cells = {0, 1, 2}
 CONSTANT Shapes = {"ideal", "unless"}
 CONSTANT Deviations = {}
 INVARIANT ExactlyNTimes
